@@ -244,6 +244,15 @@ func loadHashMap(filePath string) (*HashMap, MapType, error) {
 	return hm, typ, nil
 }
 
+// matchArgs reports whether the loaded file is the map of the requested public key and bit length
+// (a file can be renamed, or copied under another space's name).
+func (hm *HashMap) matchArgs(pubKey *pocec.PublicKey, bitLength int) error {
+	if hm.bl != bitLength || hm.pk == nil || !hm.pk.IsEqual(pubKey) {
+		return ErrDBWrongHeader
+	}
+	return nil
+}
+
 func calcSize(typeName MapType, bl int) int {
 	var recordSize = pocutil.RecordSize(bl)
 	var fileSize int
